@@ -1,5 +1,586 @@
 package harness
 
-// placeholders filled in below (C01 and C02 oracles at hook level)
-func oracleC02(r *OpRun) {}
-func oracleC01(r *OpRun) {}
+// C01 and C02 oracles at hook level (whole-operator runs).
+
+import (
+	"fmt"
+	"sort"
+	"strings"
+
+	simrt "verifsimrt"
+)
+
+type snapList struct {
+	Binding string // the kubernetes binding whose objects are listed
+	Where   string
+	List    []ObjRef
+}
+
+func listsOf(x *Exec) []snapList {
+	var out []snapList
+	for i, c := range x.Ctxs {
+		if c.Type == "Synchronization" && c.HasObjects {
+			out = append(out, snapList{c.Binding, fmt.Sprintf("context %d objects", i), c.Objects})
+		}
+		for name, l := range c.Snapshots {
+			out = append(out, snapList{name, fmt.Sprintf("context %d snapshots.%s", i, name), l})
+		}
+	}
+	return out
+}
+
+func listString(l []ObjRef) string {
+	var p []string
+	for _, o := range l {
+		if o.HasObject {
+			p = append(p, fmt.Sprintf("%s@%d", o.Key(), o.RV))
+		} else {
+			p = append(p, "filter:"+o.Filter)
+		}
+	}
+	return "[" + strings.Join(p, " ") + "]"
+}
+
+func lastWriteSeq(api *APIServer) int64 {
+	if len(api.Log) == 0 {
+		return 0
+	}
+	return api.Log[len(api.Log)-1].Seq
+}
+
+// ---------------------------------------------------------------- C02
+
+func oracleC02(r *OpRun) {
+	api := r.o.API
+	// resource versions every object ever had
+	had := map[string]map[uint64]bool{}
+	for _, w := range api.Log {
+		k := w.GVR.Resource + "|" + w.Obj.GetNamespace() + "/" + w.Obj.GetName()
+		if had[k] == nil {
+			had[k] = map[uint64]bool{}
+		}
+		had[k][w.RV] = true
+	}
+	lastShown := map[string]uint64{} // queue|hook|binding|key -> rv
+	lastQuiet := map[string]*Exec{}  // hook|binding -> last execution showing it after the last write
+	lastQuietList := map[string][]ObjRef{}
+	lw := lastWriteSeq(api)
+	for _, x := range r.o.Execs {
+		h := r.hookSpec(x.Hook)
+		if h == nil {
+			continue
+		}
+		q := r.queueOf(x)
+		// S5: keys of snapshots
+		for i, c := range x.Ctxs {
+			if !c.HasSnaps {
+				continue
+			}
+			b := r.sc.bind(x.Hook, c.Binding)
+			if b == nil {
+				continue
+			}
+			var want []string
+			if b.Kube != nil {
+				want = expectedSnapshotKeys(h, b.Kube.IncludeSnapshots, b.Kube.Group)
+			} else {
+				want = expectedSnapshotKeys(h, b.Sched.IncludeSnapshots, b.Sched.Group)
+			}
+			got := sortedKeys(c.Snapshots)
+			if fmt.Sprint(got) != fmt.Sprint(want) {
+				r.e.Viol("C02", "S5", "snapshot-keys", "execution #%d of %s, context %d (%s): snapshots has keys %v, expected %v (includeSnapshotsFrom plus kubernetes bindings of the group)", x.N, x.Hook, i, c.Binding, got, want)
+			}
+		}
+		// S4: inside one execution the snapshot of a binding is identical everywhere
+		seen := map[string]string{}
+		seenWhere := map[string]string{}
+		for _, l := range listsOf(x) {
+			cj := canonJSON(rawList(l.List))
+			if prev, ok := seen[l.Binding]; ok && prev != cj {
+				r.e.Viol("C02", "S4", "differs-within-execution", "execution #%d of %s: snapshot of binding %s differs between %s %s and %s %s", x.N, x.Hook, l.Binding, seenWhere[l.Binding], listString(nil), l.Where, listString(l.List))
+			} else if !ok {
+				seen[l.Binding] = cj
+				seenWhere[l.Binding] = l.Where
+			}
+		}
+		for _, l := range listsOf(x) {
+			b := r.sc.bind(x.Hook, l.Binding)
+			if b == nil || b.Kube == nil {
+				continue
+			}
+			kb := b.Kube
+			// S1: each object once, order by namespace/name only
+			keys := map[string]bool{}
+			prev := ""
+			for _, o := range l.List {
+				if !o.HasObject {
+					continue
+				}
+				k := o.Key()
+				if keys[k] {
+					r.e.Viol("C02", "S1", "duplicate", "execution #%d of %s, %s: object %s listed twice in %s", x.N, x.Hook, l.Where, k, listString(l.List))
+				}
+				keys[k] = true
+				sk := o.NS + "\x00" + o.Name
+				if prev != "" && sk < prev {
+					r.e.Viol("C02", "S1", "order", "execution #%d of %s, %s: not ordered by namespace/name: %s", x.N, x.Hook, l.Where, listString(l.List))
+				}
+				prev = sk
+				// S2: no invention
+				hk := gvrOfKind(kb.Kind).Resource + "|" + k
+				if !had[hk][o.RV] {
+					r.e.Viol("C02", "S2", "invented-state", "execution #%d of %s, %s: %s@%d is not a state that object ever had", x.N, x.Hook, l.Where, k, o.RV)
+				}
+				// S2: no time travel within one queue
+				if q != "" && q != "?" {
+					lk := q + "|" + x.Hook + "|" + l.Binding + "|" + k
+					if o.RV < lastShown[lk] {
+						r.e.Viol("C02", "S2", "time-travel", "execution #%d of %s, %s: %s shown at @%d after it was shown at @%d in the same queue", x.N, x.Hook, l.Where, k, o.RV, lastShown[lk])
+					}
+					lastShown[lk] = o.RV
+				}
+			}
+			if x.StartSeq > lw+1 {
+				lastQuiet[x.Hook+"|"+l.Binding] = x
+				lastQuietList[x.Hook+"|"+l.Binding] = l.List
+			}
+		}
+	}
+	// S3: once the cluster is quiet, what is shown equals the real cluster state
+	if !r.quiet {
+		return
+	}
+	for hb, x := range lastQuiet {
+		parts := strings.SplitN(hb, "|", 2)
+		b := r.sc.bind(parts[0], parts[1])
+		if b == nil || b.Kube == nil || b.Kube.DropObjects {
+			continue
+		}
+		// only executions that started well after the last delivery count as "quiet"
+		if !r.startedAfterDrain(x) {
+			continue
+		}
+		simrt.Count("probe:snapshot-checked-at-quiescence")
+		want := matchingSet(r.o.API, b.Kube)
+		got := map[string]uint64{}
+		for _, o := range lastQuietList[hb] {
+			got[o.Key()] = o.RV
+		}
+		mid := r.monitorOf(parts[0], parts[1])
+		for k, o := range want {
+			rv, ok := got[k]
+			if !ok {
+				sig := "missing-at-quiescence"
+				if r.noInformerFor(mid, o.GetNamespace()) && r.e.S.Counters["fault:list-failed"] > 0 && b.Kube.NsLabel != nil {
+					// the list of a namespace that appeared after start failed once; the namespace is never retried
+					sig = "dynamic-namespace-list-failure-not-retried"
+				}
+				r.e.Viol("C02", "S3", sig, "execution #%d of %s: snapshot of %s lacks %s@%d which matches the binding in the quiet cluster; shown %s", x.N, parts[0], parts[1], k, rvOf(o), listString(lastQuietList[hb]))
+			} else if rv != rvOf(o) {
+				r.e.Viol("C02", "S3", "stale-at-quiescence", "execution #%d of %s: snapshot of %s shows %s@%d, the quiet cluster has @%d", x.N, parts[0], parts[1], k, rv, rvOf(o))
+			}
+		}
+		for k, rv := range got {
+			if _, ok := want[k]; !ok {
+				sig := "ghost-at-quiescence"
+				if r.onlyListed(mid, k) {
+					sig = "two-list-gap"
+				}
+				r.e.Viol("C02", "S3", sig, "execution #%d of %s: snapshot of %s shows %s@%d which is not in the quiet cluster (or no longer matches)", x.N, parts[0], parts[1], k, rv)
+			}
+		}
+	}
+}
+
+func rawList(l []ObjRef) []any {
+	out := make([]any, 0, len(l))
+	for _, o := range l {
+		out = append(out, o.Raw)
+	}
+	return out
+}
+
+// startedAfterDrain: the execution started after every watch event of the history had been handled.
+func (r *OpRun) startedAfterDrain(x *Exec) bool {
+	last := int64(0)
+	for _, ri := range r.obs.Order {
+		for _, sh := range ri.Shown {
+			if sh.Seq > last {
+				last = sh.Seq
+			}
+		}
+	}
+	return x.StartSeq > last && x.StartSeq > lastWriteSeq(r.o.API)
+}
+
+// noInformerFor: the monitor has no informer for that namespace that was ever loaded.
+func (r *OpRun) noInformerFor(mid, ns string) bool {
+	for _, ri := range r.obs.ByMonitor(mid) {
+		if (ri.NS == ns || ri.NS == "") && ri.loaded {
+			return false
+		}
+	}
+	return true
+}
+
+// onlyListed: the informers of the monitor were shown the object only in their own initial list.
+func (r *OpRun) onlyListed(mid, key string) bool {
+	any := false
+	for _, ri := range r.obs.ByMonitor(mid) {
+		for _, sh := range ri.Shown {
+			if sh.Key == key {
+				any = true
+				if sh.Type != "List" {
+					return false
+				}
+			}
+		}
+	}
+	return any
+}
+
+// ---------------------------------------------------------------- C01 (hook level)
+
+type delivered struct {
+	Seq  int64
+	Type string
+	Key  string
+	RV   uint64
+	Proj string
+	Exec *Exec
+}
+
+func oracleC01(r *OpRun) {
+	execs := append([]*Exec(nil), r.o.Execs...)
+	sort.SliceStable(execs, func(i, j int) bool { return execs[i].StartSeq < execs[j].StartSeq })
+	for _, h := range r.sc.Hooks {
+		for bi := range h.Kube {
+			b := &h.Kube[bi]
+			mid := r.monitorOf(h.Path, b.Name)
+			if mid == "" {
+				continue
+			}
+			if b.Group != "" {
+				r.oracleC01Group(h, b, mid, execs)
+				continue
+			}
+			p := r.sc.proj(b.JqFilter)
+			events := b.Events
+			if events == nil {
+				events = []string{"Added", "Modified", "Deleted"}
+			}
+			// the completed Synchronization step
+			var syncX *Exec
+			var view []ObjRef
+			for _, x := range execs {
+				for _, c := range x.Ctxs {
+					if c.Type == "Synchronization" && c.Binding == b.Name && x.Hook == h.Path && (!x.Fail || b.AllowFailure) && x.EndSeq != 0 && syncX == nil {
+						syncX, view = x, c.Objects
+					}
+				}
+			}
+			// delivered Events (first occurrence of each context)
+			seen := map[string]bool{}
+			var dl []delivered
+			for _, x := range execs {
+				if x.Hook != h.Path {
+					continue
+				}
+				for _, c := range x.Ctxs {
+					if c.Type != "Event" || c.Binding != b.Name || c.Obj == nil {
+						continue
+					}
+					id := ctxIdentity(c)
+					if seen[id] {
+						continue
+					}
+					seen[id] = true
+					key := c.Obj.Key()
+					if !c.Obj.HasObject {
+						key = ""
+					}
+					dl = append(dl, delivered{Seq: x.StartSeq, Type: c.WatchEvent, Key: key, RV: c.Obj.RV, Proj: c.Obj.Filter, Exec: x})
+					// O1: never before the Synchronization step completed
+					if !b.NoSync {
+						if syncX == nil || x.StartSeq < syncX.EndSeq {
+							sn := 0
+							if syncX != nil {
+								sn = syncX.N
+							}
+							r.e.Viol("C01", "O1", "event-before-synchronization", "binding %s of %s: Event %s %s@%d handed to the hook in execution #%d before the Synchronization step (#%d) completed", b.Name, h.Path, c.WatchEvent, key, c.Obj.RV, x.N, sn)
+						}
+					}
+				}
+			}
+			if b.DropObjects {
+				continue // Events carry no object identity; covered at monitor level
+			}
+			// demanded emissions per object
+			exp := map[string][]emission{}
+			shownBy := map[string][]shownRec{}
+			for _, ri := range r.obs.ByMonitor(mid) {
+				es, _ := refEmissions(ri.Shown, events, p)
+				for _, em := range es {
+					exp[em.Key] = append(exp[em.Key], em)
+				}
+				for _, sh := range ri.Shown {
+					shownBy[sh.Key] = append(shownBy[sh.Key], sh)
+				}
+			}
+			for k := range exp {
+				sort.SliceStable(exp[k], func(i, j int) bool { return exp[k][i].Seq < exp[k][j].Seq })
+			}
+			got := map[string][]delivered{}
+			for _, d := range dl {
+				got[d.Key] = append(got[d.Key], d)
+			}
+			describe := func(k string) string {
+				var g []string
+				for _, d := range got[k] {
+					g = append(g, fmt.Sprintf("%s@%d(#%d)", d.Type, d.RV, d.Exec.N))
+				}
+				return fmt.Sprintf("object %s: demanded %s, delivered [%s]", k, emissionsString(exp[k]), strings.Join(g, ", "))
+			}
+			same := func(d delivered, em emission) bool { return d.Type == em.Type && d.RV == em.RV }
+			for k, ds := range got {
+				j := 0
+				for _, d := range ds {
+					for j < len(exp[k]) && !same(d, exp[k][j]) {
+						j++
+					}
+					if j >= len(exp[k]) {
+						r.e.Viol("C01", "O2", "order-or-invention", "binding %s of %s: Event %s %s@%d is not a demanded change at this position; %s", b.Name, h.Path, d.Type, d.Key, d.RV, describe(k))
+						break
+					}
+					j++
+				}
+			}
+			if !r.quiet || syncX == nil || b.NoSync {
+				continue
+			}
+			// second reader while locked?
+			r2during := r.secondReaderDuringSync(mid, syncX)
+			if r2during {
+				simrt.Count("probe:second-reader-while-sync-running")
+			}
+			viewBy := map[string]ObjRef{}
+			for _, o := range view {
+				viewBy[o.Key()] = o
+			}
+			for k, es := range exp {
+				vs, inView := viewBy[k]
+				cut := int64(-1)
+				found := !inView
+				if !inView {
+					cut = 0
+				}
+				for _, x := range shownBy[k] {
+					if x.Seq > syncX.StartSeq {
+						break
+					}
+					switch {
+					case inView && x.Type != "Deleted" && vs.RV == x.RV:
+						cut, found = x.Seq, true
+					case !inView && x.Type == "Deleted":
+						cut = x.Seq
+					}
+				}
+				if !found {
+					r.e.Viol("C02", "S2", "view-shows-unknown-state", "binding %s of %s: Synchronization shows %s@%d which its informer had not been shown before the hook started", b.Name, h.Path, k, vs.RV)
+					continue
+				}
+				var owed []emission
+				for _, em := range es {
+					if em.Seq > cut {
+						owed = append(owed, em)
+					}
+				}
+				ds := got[k]
+				ok := len(owed) <= len(ds)
+				if ok {
+					tail := ds[len(ds)-len(owed):]
+					for i := range owed {
+						if !same(tail[i], owed[i]) {
+							ok = false
+						}
+					}
+				}
+				if !ok {
+					sig := "lost-event"
+					if r2during {
+						sig = "second-reader-during-sync"
+					}
+					vw := "(absent)"
+					if inView {
+						vw = fmt.Sprintf("%s@%d", k, vs.RV)
+					}
+					r.e.Viol("C01", "O4", sig, "binding %s of %s: Synchronization (#%d) showed %s; changes after it are owed %s; %s", b.Name, h.Path, syncX.N, vw, emissionsString(owed), describe(k))
+				}
+			}
+			// O3 convergence
+			if len(events) == 3 {
+				model := map[string]uint64{}
+				for _, o := range view {
+					model[o.Key()] = o.RV
+				}
+				for _, d := range dl {
+					if d.Type == "Deleted" {
+						delete(model, d.Key)
+					} else {
+						model[d.Key] = d.RV
+					}
+				}
+				final := matchingSet(r.o.API, b)
+				for k, o := range final {
+					mrv, ok := model[k]
+					switch {
+					case !ok:
+						sig := "missing-object"
+						if sh := shownBy[k]; len(sh) > 0 && sh[0].Type == "List" && sh[0].Seq > syncX.StartSeq {
+							sig = "object-present-when-namespace-informer-started"
+						} else if r2during {
+							sig = "second-reader-during-sync"
+						}
+						r.e.Viol("C01", "O3", sig, "binding %s of %s: final cluster has %s@%d but Synchronization+Events have no such object; %s", b.Name, h.Path, k, rvOf(o), describe(k))
+					case b.JqFilter == "" && mrv != rvOf(o):
+						sig := "stale-object"
+						if r2during {
+							sig = "second-reader-during-sync"
+						}
+						r.e.Viol("C01", "O3", sig, "binding %s of %s: final cluster has %s@%d but Synchronization+Events end at @%d; %s", b.Name, h.Path, k, rvOf(o), mrv, describe(k))
+					}
+				}
+				for k := range model {
+					if _, ok := final[k]; !ok {
+						sig := "ghost-object"
+						if r.onlyListed(mid, k) {
+							sig = "two-list-gap"
+						} else if r2during {
+							sig = "second-reader-during-sync"
+						}
+						r.e.Viol("C01", "O3", sig, "binding %s of %s: Synchronization+Events keep %s which is not in the final cluster; %s", b.Name, h.Path, k, describe(k))
+					}
+				}
+			}
+		}
+	}
+}
+
+// secondReaderDuringSync: some snapshot read of the binding other than the Synchronization run's
+// own one happened after that read and before the unlock.
+func (r *OpRun) secondReaderDuringSync(mid string, syncX *Exec) bool {
+	for _, ri := range r.obs.ByMonitor(mid) {
+		own := int64(-1)
+		for _, s := range ri.Snapshots {
+			if s < syncX.StartSeq && s > own {
+				own = s
+			}
+		}
+		unlock := int64(1 << 62)
+		for _, u := range ri.Unlocks {
+			if u > syncX.EndSeq && u < unlock {
+				unlock = u
+			}
+		}
+		for _, s := range ri.Snapshots {
+			if s > own && own >= 0 && s < unlock {
+				return true
+			}
+		}
+	}
+	return false
+}
+
+// O5: for a binding with a group, every change is followed by a Group execution whose snapshots reflect it.
+func (r *OpRun) oracleC01Group(h *HookSpec, b *KubeBinding, mid string, execs []*Exec) {
+	if !r.quiet || b.DropObjects {
+		return
+	}
+	events := b.Events
+	if events == nil {
+		events = []string{"Added", "Modified", "Deleted"}
+	}
+	p := r.sc.proj(b.JqFilter)
+	var lastEm *emission
+	unlocked := int64(1 << 62)
+	for _, ri := range r.obs.ByMonitor(mid) {
+		for _, u := range ri.Unlocks {
+			if u < unlocked {
+				unlocked = u
+			}
+		}
+	}
+	for _, ri := range r.obs.ByMonitor(mid) {
+		es, _ := refEmissions(ri.Shown, events, p)
+		for i := range es {
+			if es[i].Seq > unlocked && (lastEm == nil || es[i].Seq > lastEm.Seq) {
+				lastEm = &es[i]
+			}
+		}
+	}
+	if lastEm == nil {
+		return
+	}
+	var lastG *Exec
+	var snap []ObjRef
+	for _, x := range execs {
+		if x.Hook != h.Path || x.Fail {
+			continue
+		}
+		for _, c := range x.Ctxs {
+			if c.Type == "Group" {
+				if l, ok := c.Snapshots[b.Name]; ok {
+					lastG, snap = x, l
+				}
+			}
+		}
+	}
+	simrt.Count("probe:group-binding-with-change")
+	if lastG == nil || lastG.StartSeq < lastEm.Seq {
+		// allowFailure bindings may have had their last Group execution dropped
+		if b.AllowFailure {
+			return
+		}
+		n := 0
+		if lastG != nil {
+			n = lastG.N
+		}
+		r.e.Viol("C01", "O5", "change-without-group-execution", "binding %s (group %s) of %s: change %s is not followed by a successful Group execution (last one: #%d)", b.Name, b.Group, h.Path, lastEm.String(), n)
+		return
+	}
+	want := matchingSet(r.o.API, b)
+	got := map[string]uint64{}
+	for _, o := range snap {
+		got[o.Key()] = o.RV
+	}
+	for k, o := range want {
+		if rv, ok := got[k]; !ok || (b.JqFilter == "" && rv != rvOf(o)) {
+			sig := "group-snapshot-stale"
+			if sh := r.firstShown(mid, k); sh != nil && sh.Type == "List" && sh.Seq > unlocked {
+				sig = "object-present-when-namespace-informer-started"
+			}
+			r.e.Viol("C01", "O5", sig, "binding %s (group %s) of %s: last Group execution #%d shows %s, final cluster has %s@%d", b.Name, b.Group, h.Path, lastG.N, listString(snap), k, rvOf(o))
+		}
+	}
+	for k := range got {
+		if _, ok := want[k]; !ok {
+			sig := "group-snapshot-ghost"
+			if r.onlyListed(mid, k) {
+				sig = "two-list-gap"
+			}
+			r.e.Viol("C01", "O5", sig, "binding %s (group %s) of %s: last Group execution #%d shows %s which is not in the final cluster", b.Name, b.Group, h.Path, lastG.N, k)
+		}
+	}
+}
+
+func (r *OpRun) firstShown(mid, key string) *shownRec {
+	var best *shownRec
+	for _, ri := range r.obs.ByMonitor(mid) {
+		for i := range ri.Shown {
+			if ri.Shown[i].Key == key && (best == nil || ri.Shown[i].Seq < best.Seq) {
+				best = &ri.Shown[i]
+			}
+		}
+	}
+	return best
+}
